@@ -296,6 +296,12 @@ class LintFilesParallel:
     def ensures_nothing_to_lint(file_paths, result):
         return implies(len(file_paths) == 0, len(result) == 0)
 
+    def on_raise_pool_path_adds_no_failure_of_its_own(file_paths, max_workers, exc_class):
+        # raise set: above the threshold the only error that ends the run is a configuration ValueError reported by a
+        # worker (as in the sequential run); the parent never touches the files itself, so no OSError / other class
+        # can come from the pool path (below the threshold: exactly what lint_files raises)
+        return implies(goes_parallel(file_paths, max_workers), exc_class == "ValueError")
+
     def ensures_cross_file_findings_as_sequential(self, file_paths, max_workers, result, old):
         # PROPERTY-LEVEL (expected to fail, known finding C07-parallel-cross-file): after the per-file part, the
         # cross-file findings are those of the sequential run, i.e. finalize() on the evidence of ALL the files
@@ -583,6 +589,54 @@ try:
                 bad.append({"entry": label, "recursive": recursive, "sequential": len(seq), "other": len(par),
                             "only_other": sorted({Path(json.loads(x)["file_path"]).name for x in par if x not in seq})[:6],
                             "only_sequential": sorted({Path(json.loads(x)["file_path"]).name for x in seq if x not in par})[:6]})
+    # hostile entries: "for any set of files and directories" -- zero-byte files, a symlink whose target is missing, a
+    # file that is not UTF-8, a file removed after it was listed; with a path-only rule (file-placement) configured so
+    # that even files without content have findings. Explicit file lists (>= 2 x workers) and the directory walk
+    hostile = tmp / "hostile"
+    (hostile / "src").mkdir(parents=True)
+    hfiles = []
+    for k in range(5):
+        p = hostile / "src" / f"real_{k}.py"
+        p.write_text(f"def real_{k}(v):\n    return v * {8000 + k} + {8100 + k}\n", encoding="utf-8")
+        hfiles.append(p)
+    for name in ("empty_a.py", "empty_b.ts", "__init__.py"):
+        p = hostile / "src" / name
+        p.write_text("", encoding="utf-8")
+        hfiles.append(p)
+    link = hostile / "src" / "dangling.py"
+    link.symlink_to(hostile / "src" / "target_was_removed.py")
+    hfiles.append(link)
+    binary = hostile / "src" / "latin1.py"
+    binary.write_bytes(b"# caf\xe9\nx = 4711\n")
+    hfiles.append(binary)
+    gone = hostile / "src" / "listed_then_removed.py"
+    hfiles.append(gone)
+    placement = {"file-placement": {"directories": {"src": {"deny": [{"pattern": ".*empty_.*", "reason": "no empty modules"},
+                                                                       {"pattern": ".*dangling.*", "reason": "no links"}]}},
+                                    "global_deny": [{"pattern": ".*listed_then_removed.*", "reason": "stale"}]}}
+    def outcome_of(fn):
+        try:
+            return ["violations", sorted(key(v) for v in fn() if not v.rule_id.startswith(("dry.", "stringly-typed")))]
+        except Exception as e:  # noqa
+            return ["error", type(e).__name__, str(e)[:120]]
+    for cfg in ({}, placement):
+        for workers in (1, 2):
+            for order in (list(hfiles), list(reversed(hfiles))):
+                seq = outcome_of(lambda: orchestrator(tmp, cfg).lint_files(list(order)))
+                par = outcome_of(lambda: orchestrator(tmp, cfg).lint_files_parallel(list(order), max_workers=workers))
+                cases.append(["hostile files", workers, seq[0]])
+                if seq != par:
+                    bad.append({"scenario": "files incl. empty / dangling symlink / non-UTF-8 / removed", "workers": workers, "config": sorted(cfg),
+                                "sequential": seq[:3] if seq[0] == "error" else [seq[0], len(seq[1])],
+                                "parallel": par[:3] if par[0] == "error" else [par[0], len(par[1])],
+                                "only_sequential": [] if "error" in (seq[0], par[0]) else sorted({Path(json.loads(x)["file_path"]).name + ":" + json.loads(x)["rule_id"] for x in seq[1] if x not in par[1]})[:6]})
+            seq = outcome_of(lambda: orchestrator(tmp, cfg).lint_directory(hostile))
+            par = outcome_of(lambda: orchestrator(tmp, cfg).lint_directory_parallel(hostile, max_workers=workers))
+            cases.append(["hostile tree", workers, seq[0]])
+            if seq != par:
+                bad.append({"scenario": "directory incl. empty / dangling symlink / non-UTF-8", "workers": workers, "config": sorted(cfg),
+                            "sequential": seq[:3] if seq[0] == "error" else [seq[0], len(seq[1])],
+                            "parallel": par[:3] if par[0] == "error" else [par[0], len(par[1])]})
     # reuse: ONE orchestrator object, a second run after a file was edited (library use / long-lived process)
     ro_seq, ro_par = orchestrator(tmp, {}), orchestrator(tmp, {})
     fs = files[:4]
@@ -627,7 +681,7 @@ print("RESULT=" + json.dumps({"cases": cases, "bad": bad}))
 '''
 
 
-@custom("c07-pool-equals-sequential-bounded", props=["C07"])
+@custom("c07-pool-equals-sequential-bounded", props=["C07", "C10"])
 def c07_pool_bounded(ctx):
     """BOUNDED NATIVE CHECK (not a proof; listed under `bounded` in the evidence). The process pool itself
     (_execute_parallel_linting: ProcessPoolExecutor, submit, pickling) is outside the verified subset and its contract is
@@ -639,7 +693,9 @@ def c07_pool_bounded(ctx):
     multi-language (Python / TypeScript / JavaScript / Rust files around the nesting and class-size limits) and is linted
     under configurations with per-language override sections, in three file orders. A directory tree is linted
     recursively and with --no-recursive through lint_directory_parallel and through the CLI's execute_linting_on_paths
-    (parallel and not) against lint_directory with the same flag. It also compares the OUTCOME
+    (parallel and not) against lint_directory with the same flag. A "hostile" set (zero-byte files, a dangling symlink,
+    a non-UTF-8 file, a listed-then-removed file; with and without a path-only file-placement configuration) is linted as
+    an explicit list (>= 2 x workers, both orders) and as a directory: same violations or same error. It also compares the OUTCOME
     (violations, or the class and message of the error that ends the run) for 14 configurations with one invalid value
     per linter family: a run the sequential mode refuses must be refused identically by the pool."""
     import json
